@@ -59,6 +59,23 @@ class TTD(TypedDict):
     n: int
 
 
+@attrs.define
+class TExpr:
+    pass
+
+
+@attrs.define
+class TLit(TExpr):
+    value: int = 0
+
+
+@attrs.define
+class TAdd(TExpr):
+    left: TExpr = attrs.Factory(TLit)
+    right: TExpr = attrs.Factory(TLit)
+    opt: Optional[TExpr] = None
+
+
 U_AB = Union[TA, TB]
 U_ABN = Union[TA, TB, None]
 U_ADE = Union[TA, TD_, TE]
@@ -66,7 +83,7 @@ U_ADE = Union[TA, TD_, TE]
 OUTER = [("TA", TA), ("THolder", THolder), ("TDHolder", TDHolder), ("List[TA]", List[TA]), ("Dict[str, TA]", Dict[str, TA]), ("Optional[TA]", Optional[TA]),
          ("Tuple[TA, int]", Tuple[TA, int]), ("Tuple[TA, ...]", Tuple[TA, ...]), ("Union[TA, TB]", U_AB), ("Union[TA, TB, None]", U_ABN),
          ("Union[TA, TD_, TE]", U_ADE), ("List[Union[TA, TB]]", List[U_AB]), ("TNT", TNT), ("TTD", TTD), ("List[int]", List[int]), ("Dict[str, int]", Dict[str, int]),
-         ("Set[int]", set[int])]
+         ("Set[int]", set[int]), ("TExpr", TExpr), ("TAdd", TAdd), ("List[TExpr]", List[TExpr])]
 BASE_UNSUPPORTED = {"Tuple[TA, int]", "TNT", "TTD"}        # outside BaseConverter's documented support
 
 
@@ -76,7 +93,9 @@ def values_for(label):
         "TA": [a, a2], "THolder": [THolder(a, 3)], "TDHolder": [TDHolder(a, b), TDHolder(a2, a)], "List[TA]": [[a, a2], []], "Dict[str, TA]": [{"p": a}],
         "Optional[TA]": [a, None], "Tuple[TA, int]": [(a, 4)], "Tuple[TA, ...]": [(a, a2)], "Union[TA, TB]": [a, b], "Union[TA, TB, None]": [a, b, None],
         "Union[TA, TD_, TE]": [a, d, TE()], "List[Union[TA, TB]]": [[a, b]], "TNT": [TNT(a, 2)], "TTD": [{"x": a, "n": 2}], "List[int]": [[1, 2]],
-        "Dict[str, int]": [{"k": 1}], "Set[int]": [{1, 2}]}[label]
+        "Dict[str, int]": [{"k": 1}], "Set[int]": [{1, 2}],
+        "TExpr": [TLit(1), TAdd(TLit(1), TAdd(TLit(2), TLit(3)), TLit(4))], "TAdd": [TAdd(TLit(1), TAdd(TLit(2), TLit(3), TLit(5)))],
+        "List[TExpr]": [[TLit(1), TAdd(TAdd(), TLit(2))]]}[label]
 
 
 def payloads_for(label):
@@ -114,6 +133,15 @@ def payloads_for(label):
         return [{"k": 1}, {"k": "2"}]
     if label == "Set[int]":
         return [[1, 2], {3}]
+    lit, lit_t = {"value": 1}, {"value": 1, "_type": "TLit"}
+    add_t = {"left": lit_t, "right": {"left": lit_t, "right": lit_t, "opt": None, "_type": "TAdd"}, "opt": lit_t, "_type": "TAdd"}
+    add = {"left": lit, "right": lit, "opt": None}
+    if label == "TExpr":
+        return [lit, lit_t, add_t, add, {}]
+    if label == "TAdd":
+        return [add_t, add, {"left": lit_t}]
+    if label == "List[TExpr]":
+        return [[lit_t, add_t], [lit], []]
     raise ValueError(label)
 
 
@@ -143,6 +171,8 @@ def registrations(full):
     R.append(("register_structure_hook(Union[TA, TB], f)", lambda c: c.register_structure_hook(U_AB, lambda o, _: TB("from-union-hook"))))
     R.append(("register_unstructure_hook(Union[TA, TB], f)", lambda c: c.register_unstructure_hook(U_AB, lambda x: {"u": type(x).__name__})))
     R.append(("configure_tagged_union(Union[TA, TB], conv)", lambda c: configure_tagged_union(U_AB, c)))
+    R.append(("include_subclasses(TExpr, conv, union_strategy=configure_tagged_union)", lambda c: include_subclasses(TExpr, c, union_strategy=configure_tagged_union)))
+    R.append(("include_subclasses(TExpr, conv)", lambda c: include_subclasses(TExpr, c)))
     if full:
         R.append(("register_structure_hook(TTD, f)", lambda c: c.register_structure_hook(TTD, lambda o, _: {"x": TA(7), "n": 70})))
     return R
@@ -228,4 +258,52 @@ def check_c08_twin(v: Verdict, n_cases: int):
                 v.violation("warmed converter and fresh replay of the registrations disagree (generated hooks capture stale state)",
                             {"lane": "TWIN/C08", "converter": cls.__name__, "options": kw, "steps": steps, "probe": what, "warmed": xa, "fresh": xb})
                 break
+    strategy_after_warm(v, hist)
     v.coverage["twin_battery"] = hist
+
+
+def strategy_after_warm(v: Verdict, hist):
+    """systematic: every strategy (include_subclasses with / without a union strategy, configure_tagged_union, union passthrough) applied
+    to a converter on which ONE probe type was used before (each type, each direction) vs the same strategy on a fresh converter:
+    strategies build hooks from hooks they fetch from the converter, and must not pick up what earlier use left in its caches"""
+    from cattrs import Converter
+    from cattrs.strategies import configure_tagged_union, configure_union_passthrough, include_subclasses
+    strategies = [("include_subclasses(TExpr, conv, union_strategy=configure_tagged_union)", lambda c: include_subclasses(TExpr, c, union_strategy=configure_tagged_union)),
+                  ("include_subclasses(TExpr, conv)", lambda c: include_subclasses(TExpr, c)),
+                  ("configure_tagged_union(Union[TA, TB], conv)", lambda c: configure_tagged_union(U_AB, c)),
+                  ("configure_tagged_union(Union[TA, TB], conv, default=TA)", lambda c: configure_tagged_union(U_AB, c, default=TA)),
+                  ("configure_union_passthrough(Union[int, str, None], conv)", lambda c: configure_union_passthrough(Union[int, str, None], c))]
+    n = 0
+    for sname, apply in strategies:
+        for label, T in OUTER:
+            for direction in ("unstructure", "structure", "get_unstructure_hook", "get_structure_hook"):
+                for dv in (True, False):
+                    warmed, fresh = Converter(detailed_validation=dv), Converter(detailed_validation=dv)
+                    try:
+                        if direction == "unstructure":
+                            warmed.unstructure(copy.deepcopy(values_for(label)[-1]), unstructure_as=T)
+                        elif direction == "structure":
+                            warmed.structure(copy.deepcopy(payloads_for(label)[0]), T)
+                        elif direction == "get_unstructure_hook":
+                            warmed.get_unstructure_hook(T)
+                        else:
+                            warmed.get_structure_hook(T)
+                    except RecursionError:
+                        raise
+                    except BaseException:      # noqa
+                        pass
+                    ra, rb = outcome(lambda: apply(warmed)), outcome(lambda: apply(fresh))
+                    n += 1
+                    steps = [f"warm: {direction}({label})", "apply: " + sname]
+                    v.count(repr(("strategy-after-warm", sname, label, direction, dv)), True)
+                    if ra[0] != rb[0]:
+                        v.violation("a strategy can be applied to one of {used converter, fresh converter} only",
+                                    {"lane": "TWIN/C08 strategy after use", "detailed_validation": dv, "steps": steps, "used": ra, "fresh": rb})
+                        continue
+                    pa, pb = probe(warmed, True), probe(fresh, True)
+                    for (what, xa), (_w, xb) in zip(pa, pb):
+                        if xa != xb:
+                            v.violation("a strategy applied after the converter was used behaves differently from the same strategy on a fresh converter (it picked up cached hooks)",
+                                        {"lane": "TWIN/C08 strategy after use", "detailed_validation": dv, "steps": steps, "probe": what, "used": xa, "fresh": xb})
+                            break
+    hist["strategy_after_warm_cases"] = n
